@@ -552,6 +552,15 @@ RULES = {
     "R9": Rule("R9", "pub const N: T = E; -> const N: T = E;", "pub const $n : $$t = $$e ;", "const $n : $$t = $$e ;"),
     # Verus spelling of an exec-only constant
     "R13": Rule("R13", "const N: T = E; -> exec const N: T { E }", "const $n : $$t = $$e ;", "exec const $n : $$t { $$e }"),
+    "R12c": Rule("R12c", "Iterator::cmp(A.iter().rev(), B.iter().rev()) -> __cmp_rev(A, B)",
+                 "Iterator :: cmp ( $a . iter ( ) . rev ( ) , $b . iter ( ) . rev ( ) )", "__cmp_rev ( $a , $b )"),
+    # debug_assert! statements are dropped (not compiled in release builds). Where a unit uses this rule the
+    # debug-profile clause of C14 is not decided for that function (reported in the evidence as a rewrite).
+    "R14": Rule("R14", "debug_assert!(..); -> (dropped)", "debug_assert ! ( $$c ) ;", ""),
+    # operator UFCS (Rust's own definition of the operators); works around a Verus internal error on reference operands
+    "R3a": Rule("R3a", "(X) + (Y) -> Add::add((X), (Y))", "( $$x ) + ( $$y )", "Add :: add ( ( $$x ) , ( $$y ) )"),
+    "R3s": Rule("R3s", "(X) - (Y) -> Sub::sub((X), (Y))", "( $$x ) - ( $$y )", "Sub :: sub ( ( $$x ) , ( $$y ) )"),
+    "R3m": Rule("R3m", "(X) * (Y) -> Mul::mul((X), (Y))", "( $$x ) * ( $$y )", "Mul :: mul ( ( $$x ) , ( $$y ) )"),
     "R4b": Rule("R4b", "for (a, &b) in I { S } -> for (a, b_r__) in I { let b = *b_r__; S }",
                 "for ( $a , & $b ) in $$i { $$s }",
                 "for ( $a , b_r__ ) in $$i { let $b = * b_r__ ; $$s }"),
@@ -646,6 +655,90 @@ def drop_attrs(ss, names=("inline", "doc", "allow", "must_use", "cold", "rustfmt
             continue
         out.append(ss[i])
         i += 1
+    return out
+
+
+def macro_arm(text, name, arm=0):
+    """(param names, body tokens) of arm `arm` of `macro_rules! name` in `text`."""
+    toks = tokenize(text)
+    ss = strs(toks)
+    for i in range(len(ss) - 3):
+        if ss[i] == "macro_rules" and ss[i + 1] == "!" and ss[i + 2] == name and ss[i + 3] in OPEN:
+            o = i + 3
+            c = match_close(toks, o)
+            k = o + 1
+            arms = []
+            while k < c:
+                if ss[k] in OPEN:
+                    pe = match_close(toks, k)
+                    # expect => then group
+                    if ss[pe + 1] == "=>" and ss[pe + 2] in OPEN:
+                        be = match_close(toks, pe + 2)
+                        arms.append((ss[k + 1:pe], ss[pe + 3:be]))
+                        k = be + 1
+                        continue
+                k += 1
+            pat, body = arms[arm]
+            params = []
+            j = 0
+            while j < len(pat):
+                if pat[j] == "$" and j + 3 < len(pat) + 1 and pat[j + 2] == ":":
+                    params.append(("$" + pat[j + 1], pat[j + 3]))
+                    j += 4
+                else:
+                    j += 1
+            return params, body, pat
+    raise ExtractError("anchor lost: macro_rules! %s" % name)
+
+
+def expand_macro(ss, name, src_text, log, where, arm=0):
+    """R6: replace `name!(args)` in ss by the macro arm body with parameters substituted (expr arguments are
+    parenthesised, as macro expansion treats them as single expression nodes)."""
+    params, body, pat = macro_arm(src_text, name, arm)
+    out = []
+    i = 0
+    n = 0
+    while i < len(ss):
+        if ss[i] == name and i + 2 < len(ss) and ss[i + 1] == "!" and ss[i + 2] in OPEN:
+            depth = 0
+            k = i + 2
+            while True:
+                if ss[k] in OPEN:
+                    depth += 1
+                elif ss[k] in CLOSE:
+                    depth -= 1
+                    if depth == 0:
+                        break
+                k += 1
+            args = []
+            cur = []
+            d = 0
+            for t in ss[i + 3:k]:
+                if t in OPEN:
+                    d += 1
+                elif t in CLOSE:
+                    d -= 1
+                if t == "," and d == 0:
+                    args.append(cur)
+                    cur = []
+                else:
+                    cur.append(t)
+            if cur:
+                args.append(cur)
+            if len(args) != len(params):
+                raise ExtractError("macro %s: %d args for %d params" % (name, len(args), len(params)))
+            subst = {}
+            for (pn, frag), a in zip(params, args):
+                subst[pn] = (["("] + a + [")"]) if (frag == "expr" and len(a) > 1) else a
+            out.extend(substitute(body, subst))
+            log.append({"rule": "R6", "function": where, "from": name + "!(" + join(ss[i + 3:k]) + ")", "to": "macro arm body with " + ", ".join("%s=%s" % (p[0], join(a)) for p, a in zip(params, args))})
+            i = k + 1
+            if i < len(ss) and ss[i] == ";" and False:
+                i += 1
+            n += 1
+        else:
+            out.append(ss[i])
+            i += 1
     return out
 
 
